@@ -696,5 +696,14 @@ def xstep (tc : TCfg) (top : Top) (xop : XOp) : Out (Top × String) := do
   let (top, r) ← xstepCore tc top xop
   pure (top.swSync tc, r)
 
+/-- A history at this layer: the operations one after the other; the first failure ends it. -/
+def xrunOps (tc : TCfg) : Top → List XOp → Out Top
+  | top, [] => .ok top
+  | top, op :: rest =>
+    match xstep tc top op with
+    | .ok (top', _) => xrunOps tc top' rest
+    | .ub k w => .ub k w
+    | .fuel => .fuel
+
 end Life
 end Tickit
